@@ -70,6 +70,10 @@ class _Norm(ast.NodeTransformer):
             # only numbers commute; string concatenation does not — keep order when a str shows
             if any(isinstance(o, (ast.Constant,)) and isinstance(o.value, str) or isinstance(o, ast.JoinedStr) for o in ops):
                 return node
+            # identities: 1 * x, x + 0
+            ident = 1 if isinstance(node.op, ast.Mult) else 0
+            kept = [o for o in ops if not (isinstance(o, ast.Constant) and type(o.value) is int and o.value == ident)]
+            ops = kept or ops[:1]
             ops.sort(key=_t)
             out = ops[0]
             for o in ops[1:]:
